@@ -6,6 +6,7 @@ import petl as etl
 from hypothesis import strategies as st
 
 from pv import gen, codec
+from pv import catgen
 from pv.core import Sub, Fail, exc_fail, two_iterators
 from pv.order import ref_cmp, ref_key
 from pv.ref import base as R
@@ -283,6 +284,14 @@ def check(case, ctx):
             back2 = _T(etl.fromdicts(iter(list(ds)), header=hdr))
             if back2 != exp or _T(etl.fromdicts(list(ds), header=hdr)) != exp:
                 return fail("fromdicts(dicts, header)", back2, exp)
+            # re-iterable containers of dicts that are neither list nor tuple (the dicts() view itself, an object with only
+            # __iter__), with an explicit header, iterated twice
+            for cname, cont in (("dicts() view", etl.dicts(T)), ("__iter__-only container", catgen.IterOnly(list(ds)))):
+                cv = etl.fromdicts(cont, header=tuple(hdr))
+                for pno in (1, 2):
+                    got = _T(cv)
+                    if got != exp:
+                        return fail("fromdicts(%s, header=...), pass %d" % (cname, pno), got, exp)
             # dicts streamed through a generator (the spill-file path), read by two iterators of which one lags behind,
             # and once more afterwards
             for lag, kw in ((2, {"header": hdr}), (3, {}), (0, {"header": hdr})):
